@@ -577,3 +577,11 @@ add('C08', 'pop-counter-that-ends-the-run', PQF, [(POP, POP + "        self.num_
 # ---- the defect repaired by 1925658 ------------------------------------------------------------------------------
 JOIN_LOOP = "                    while password and password[-1] not in '\\r\\n':\n                        rest_of_line = self.file.readline()\n                        if rest_of_line == \"\":\n                            break\n                        password += rest_of_line\n"
 add('C19', 'revert-fix-1925658 (codecs readline as the record boundary)', TFIF, JOIN_LOOP, "", 'fire', 'C19.R15')
+
+# ---- fix 718673a: the save on exhaustion names a position below every pre-terminal --------------------------------
+EXH = "                self.pqueue.max_probability = -1.0\n"
+add('C08', 'revert-fix-718673a (last pre-terminal saved as still to do)', CSF, EXH, "", 'fire', 'C08.R28')
+add('C15', 'revert-fix-718673a (last Markov level generated again after it was finished)', CSF, EXH, "", 'fire', 'C15.R17')
+add('C08', 'exhaustion-position-zero', CSF, EXH, "                self.pqueue.max_probability = 0.0\n", 'fire', 'C08.R28')
+add('C15', 'exhaustion-position-min-probability', CSF, EXH, "                self.pqueue.max_probability = self.pqueue.min_probability\n", 'fire', 'C15.R17')
+add('C08', 'exhaustion-position-minus-inf', CSF, EXH, "                self.pqueue.max_probability = float('-inf')\n", 'silent')
